@@ -69,15 +69,31 @@ func replaceSuffixes(inputLines *bytes.Buffer, suffixReplacements map[string]str
 	// lines can be longer than the scanner's default limit of 64 KiB
 	scanner.Buffer(nil, math.MaxInt)
 	skipRegex := regexp.MustCompile(`^(?:##!|\s*$)`)
+	// Try the suffixes in a fixed order (longest first), not in map order.
+	suffixes := make([]string, 0, len(suffixReplacements))
+	for match := range suffixReplacements {
+		suffixes = append(suffixes, match)
+	}
+	sort.Slice(suffixes, func(i, j int) bool {
+		if len(suffixes[i]) != len(suffixes[j]) {
+			return len(suffixes[i]) > len(suffixes[j])
+		}
+		return suffixes[i] < suffixes[j]
+	})
 	for scanner.Scan() {
 		entry := scanner.Text()
 		if !skipRegex.MatchString(entry) {
-			for match, replacement := range suffixReplacements {
+			for _, match := range suffixes {
+				replacement := suffixReplacements[match]
 				verifhook.Emit("suffix-iter", []string{entry, match}, replacement)
 				var found bool
 				entry, found = strings.CutSuffix(entry, match)
 				if found && replacement != `""` {
 					entry += replacement
+				}
+				if found {
+					// an entry is rewritten once, the result is not matched again
+					break
 				}
 			}
 		}
